@@ -245,3 +245,85 @@ func runHistories(o *Options, hs []*history) error {
 	}
 	return nil
 }
+
+// ---- slot transitions: every ordered pair of variable kinds meets in one slot across a reset
+
+var slotKinds = []string{"int", "int64", "int8", "uint", "uint32", "float", "bool", "string", "bytes", "nil", "setbytes", "setstring", "counter"}
+
+func slotVar(name, kind string, r *RNG, emptyish bool) StaticVar {
+	v := StaticVar{Name: name, Kind: kind, Ptr: r.Chance(70)}
+	switch kind {
+	case "int", "int64", "int8":
+		v.I = []int64{5, 7, -1, 100}[r.Intn(4)]
+		if emptyish {
+			v.I = 0
+		}
+	case "uint", "uint32":
+		v.U = []uint64{5, 42, 1}[r.Intn(3)]
+		if emptyish {
+			v.U = 0
+		}
+	case "float":
+		v.F = []float64{2.25, 12.5, -0.5}[r.Intn(3)]
+		if emptyish {
+			v.F = 0
+		}
+	case "bool":
+		v.B = !emptyish
+	case "string", "bytes", "setbytes", "setstring":
+		v.S = []byte([]string{"abc", "John", "x y"}[r.Intn(3)])
+		if emptyish {
+			v.S = []byte{}
+		}
+	case "counter":
+		v.I = int64(3 + r.Intn(5))
+		if emptyish {
+			v.I = 0
+		}
+	}
+	return v
+}
+
+func manualCase(id int, src string, data *DataEnv, h *history) *interpCase {
+	key, dump, po := parseDump([]byte(src), false)
+	if po.ErrClass() != "OK" {
+		panic("slot template does not parse: " + src + ": " + po.Err + po.Panic)
+	}
+	vc := &VCase{ID: id, Src: src, Data: data, Flits: map[string]float64{}, Reg: map[string][]dyntpl.VerifNode{}, Meta: map[string]any{"key": key}, Tree: dump, Budget: 8}
+	return &interpCase{vc: vc, tags: map[string]bool{}}
+}
+
+// genSlotHistory: first segment leaves kind a (and template-made counters / ctx variables) in the
+// low slots; after a reset or a pool round trip the same slots take kind b, mostly with empty values.
+func genSlotHistory(id int, rng *RNG, a, b string) *history {
+	h := &history{Reg: map[string][]dyntpl.VerifNode{}, Flits: map[string]float64{}, Budget: 8}
+	d1 := &DataEnv{Statics: []StaticVar{slotVar("s0", a, rng, false), slotVar("s1", a, rng, false)}}
+	t1 := []string{
+		`<{%= s0 %}|{%= s1 %}>{% counter k1 = 7 %}{% counter k1++ %}{%= k1 %}`,
+		`<{%= s1 %}>{% ctx x1 = s0 %}{%= x1 %}{% counter k1 = 3 %}{%= k1 %}`,
+		`{% counter k1 = 4 %}{% counter k2 = 9 %}{% counter k2++ %}<{%= s0 %}{%= k1 %}{%= k2 %}>`,
+	}[rng.Intn(3)]
+	others := []string{"nil", "setstring", "string", "setbytes", "bytes", "counter", "int"}
+	d2 := &DataEnv{Statics: []StaticVar{
+		slotVar("s0", b, rng, rng.Chance(60)), slotVar("s1", b, rng, rng.Chance(60)),
+		slotVar("s2", others[rng.Intn(len(others))], rng, rng.Chance(80)),
+		slotVar("s3", others[rng.Intn(len(others))], rng, rng.Chance(80)),
+		slotVar("s4", b, rng, rng.Chance(60))}}
+	if rng.Bool() { // other names in the same slots
+		for i := range d2.Statics {
+			d2.Statics[i].Name = fmt.Sprintf("t%d", i)
+		}
+	}
+	n := func(i int) string { return d2.Statics[i].Name }
+	t2 := fmt.Sprintf(`[{%%= %s %%}|{%%= %s %%}|{%%= %s pfx p= sfx ; %%}|{%%= %s %%}|{%%= %s %%}]`, n(0), n(1), n(2), n(3), n(4))
+	ic1 := manualCase(id*10, t1, d1, h)
+	ic2 := manualCase(id*10+1, t2, d2, h)
+	sep := []string{"reset", "release"}[rng.Intn(2)]
+	h.Steps = []*hStep{
+		{Kind: "render", IC: ic1, Key: ic1.vc.Meta["key"].(string)},
+		{Kind: sep},
+		{Kind: "render", IC: ic2, Key: ic2.vc.Meta["key"].(string)},
+		{Kind: "reset"},
+	}
+	return h
+}
